@@ -140,6 +140,75 @@ def correspondences(tier, rng):
                 return "rebased tents give %.9g at x=%s where the tent is %.9g (tent %s, limits %s)" % (got, xx, float(want), t, L[:3])
         return None
     out.append(Corr("rebaseTent", cases, lambda x: 0, compare=cmp_rebase, oracle=oracle_rebase))
+    # ONE VariationModel over a history of getSubModel / reorderMasters calls: which locations answer, and the index maps
+    from fontTools.varLib.errors import VariationModelError
+    from lib.ser import Raw, Ok, Err
+    from lib import ser as S_
+    cases = []
+    for _ in range(N(tier, 400, 6000)):
+        axes, locs = _rand_locations(rng, rng.randint(1, 3))
+        nl = len(locs); pats = []; ops = []
+        for _s in range(rng.randint(2, 8)):
+            if rng.chance(60) or not ops:
+                if pats and rng.chance(45): pat = rng.choice(pats)
+                else:
+                    k = nl if rng.chance(90) else max(0, nl + rng.choice([-1, 1]))
+                    pat = [rng.chance(70) for _ in range(k)] if rng.chance(85) else [True] * k
+                    pats.append(pat)
+                ops.append((0, pat))
+            else:
+                mp = list(range(nl)); rng.shuffle(mp)
+                r_ = rng.below(12)
+                if r_ == 0 and nl > 1: mp[rng.below(nl)] = mp[rng.below(nl)]            # a master dropped, another doubled
+                elif r_ == 1: mp[rng.below(nl)] = nl + rng.below(2)                      # out of range
+                elif r_ == 2: mp = [i - nl for i in mp]                                   # Python's negative indices
+                ops.append((1, mp))
+        cases.append((axes, locs, ops))
+    def norm(l): return tuple(sorted((k_, v_) for k_, v_ in l.items() if v_ != 0))
+    def vm_setup(x):
+        axes, locs, ops = x
+        m = models.VariationModel(locs, axisOrder=axes)
+        ids = {norm(l): i for i, l in enumerate(locs)}
+        return m, ids
+    def enc_vm(x):
+        axes, locs, ops = x
+        m, ids = vm_setup(x)
+        return (ids[()], [ids[norm(l)] for l in m.locations], list(range(len(locs))), [Raw([0, len(o[1])] + [1 if b else 0 for b in o[1]]) if o[0] == 0 else Raw([1, len(o[1])] + list(o[1])) for o in ops])
+    def impl_vm(x):
+        axes, locs, ops = x
+        m, ids = vm_setup(x)
+        outs = []
+        for o in ops:
+            try:
+                if o[0] == 0:
+                    sub, _items = m.getSubModel([1 if b else None for b in o[1]])
+                    outs.append(Ok([[ids[norm(l)] for l in sub.origLocations]]))
+                else:
+                    m.reorderMasters(list(range(len(m.origLocations))), o[1])
+                    outs.append(Ok([[ids[norm(l)] for l in m.origLocations], list(m.mapping), list(m.reverseMapping)]))
+            except AssertionError: outs.append(Err(S_.ASSERT))
+            except VariationModelError: outs.append(Err(S_.LIB))
+            except IndexError: outs.append(Err(S_.INDEX))
+            except ValueError: outs.append(Err(S_.VALUE))
+        return Ok(outs)
+    def oracle_vm(x):
+        """the PROPERTY on the implementation: whatever the history, a request is answered by the model of exactly the masters present now"""
+        axes, locs, ops = x
+        m, ids = vm_setup(x)
+        for o in ops:
+            try:
+                if o[0] == 0:
+                    items = [1 if b else None for b in o[1]]
+                    sub, _ = m.getSubModel(items)
+                    want = [l for l, b in zip(m.origLocations, o[1]) if b]
+                    if len(o[1]) == len(m.origLocations) and [norm(l) for l in sub.origLocations] != [norm(l) for l in want]:
+                        return "getSubModel(%r) answers with the model of %r, the masters present are %r" % (o[1], sub.origLocations, want)
+                else:
+                    m.reorderMasters(list(range(len(m.origLocations))), o[1])
+            except ValueError: return None          # a half-failed reorderMasters: the object is no longer consistent (caller error)
+            except Exception: pass
+        return None
+    out.append(Corr("vm_history", cases, impl_vm, enc=enc_vm, oracle=oracle_vm))
     return out
 
 # ------------------------------------------------------------------ sweeps
